@@ -1,4 +1,5 @@
 import BpModel.Model.Cli
+import BpModel.Model.Memo
 /-!
 # C18 — compilation is deterministic
 
@@ -12,15 +13,6 @@ are only executed by the correspondence check (environment grid), so the claim i
 -/
 namespace Bp.C18
 open Bp
-
-/-- a memo table in front of a function `f` of (node, time): nodes may change until frozen -/
-structure Memo (K V : Type) where
-  table : List (K × V) := []
-
-def Memo.get {K V} [DecidableEq K] (m : Memo K V) (f : K → V) (frozen : K → Bool) (k : K) : V × Memo K V :=
-  match m.table.find? (·.1 = k) with
-  | some (_, v) => (v, m)
-  | none => if frozen k then (f k, { table := (k, f k) :: m.table }) else (f k, m)
 
 /-- invariant: every stored entry is the function's value -/
 def Memo.Ok {K V} (m : Memo K V) (f : K → V) : Prop := ∀ kv ∈ m.table, kv.2 = f kv.1
